@@ -127,7 +127,44 @@ def handle (args : List String) : Option (String × String) := do
       match collectConst chain src with
       | some l => some (showRes (.items l), spec)
       | none => some ("panic", spec)
-    | _ => some (showRes (konstEvalK chain c src), spec)   -- the literal loop nest
+    | _ => some (showRes (konstEvalL chain c src).1, spec)   -- the literal loop nest (with the take guards; = konstEvalK by calls_erase)
   | _ => none
+
+/-! `calls <ads> <consumer> <input>`: value `|` closure calls `[pos:arg;..]` (methods numbered from 0 =
+    `copied()`); spec = value and calls of the std chain (`?` when a reversing method occurs).
+    `hostile <ads> <consumer> <pos>:<arg> <input>`: the closure of method `pos` panics when called on
+    `arg`: `panic|calls up to it`, or the same answer as `calls`. -/
+
+def showLog (l : Log) : String :=
+  showList (l.map fun c => toString c.1 ++ ":" ++ showVal c.2)
+
+def showOutcome : Sum Log (Res × Log) → String
+  | .inl l => "panic|" ++ showLog l
+  | .inr (v, l) => showRes v ++ "|" ++ showLog l
+
+def handleCalls (op : String) (args : List String) : Option (String × String) := do
+  let (ads, cons, poison, inp) ← match op, args with
+    | "calls", [ads, cons, inp] => some (ads, cons, none, inp)
+    | "hostile", [ads, cons, poi, inp] =>
+      match poi.splitOn ":" with
+      | [p, key] => p.toNat?.map fun p => (ads, cons, some (p, key), inp)
+      | _ => none
+    | _, _ => none
+  let chain ← if ads = "-" then some [] else (ads.splitOn ",").mapM parseAd
+  let chain := Ad.copied :: chain
+  let c ← parseCons cons
+  let src ← parseInput inp
+  if !(accepted chain c) then some ("rejected", "rejected") else
+  match c with
+  | .collect => none
+  | _ =>
+    let isPoison : Call → Bool := match poison with
+      | none => fun _ => false
+      | some (p, key) => fun call => call.1 == p && showVal call.2 == key
+    let model := showOutcome (hostile isPoison (konstEvalL chain c src))
+    let spec := match stdCalls chain c src with
+      | some l => showOutcome (hostile isPoison (docResult chain c src, l))
+      | none => "?"
+    some (model, spec)
 
 end Driver.C10
